@@ -36,7 +36,7 @@ FLOORS = {"quick": {"scenarios": 8000, "find_entries": 12000, "answers_predicted
 POOL = [(0x5001, 1, 1, 10), (0x5001, 2, 1, 10), (0x5001, 1, 2, 11), (0x5002, 1, 1, 10), (0x5001, 3, 1, 12)]
 PEERS = [("10.0.8.9", 30490), ("2001:db8::89", 30490, 0, 0)]
 W = (0xFFFF, 0xFF, 0xFFFFFFFF)
-CLASSES = ("initial-wait", "first-offer:d-eps", "first-offer:before", "first-offer:after", "first-offer:d+eps", "in-collector",
+CLASSES = ("initial-wait", "first-offer:d-eps", "first-offer:before", "first-offer:after", "first-offer:d+eps", "first-offer:d-res", "in-collector",
            "repetition", "main", "stop:d-eps", "stop:same-before", "stop:same-after", "stop:d+eps", "stopped")
 
 
@@ -150,6 +150,8 @@ def build(rng):
         y, rank = T0, AFTER
     elif cls == "first-offer:d+eps":
         y = T0 + EPS
+    elif cls == "first-offer:d-res":
+        y = T0 - RES / 2  # less than a clock resolution ahead: the loop sends the first offer in the iteration of the request
     elif cls == "in-collector":
         y = T0 + cfg["ct"] / 2 if cfg["ct"] else None
     elif cls == "repetition":
